@@ -431,7 +431,9 @@ ws_msg_init_control(
 		return (NNG_ENOMEM);
 	}
 
-	memcpy(frame->sdata, buf, len);
+	if (len > 0) {
+		memcpy(frame->sdata, buf, len);
+	}
 	frame->len     = len;
 	frame->final   = true;
 	frame->op      = op;
